@@ -271,6 +271,47 @@ def r3_merkle(ctx, F):
             ctx.violation("merkle-lowering|%s" % n, "assembly/src/assembler/instruction/crypto_ops.rs", "%s must verify the host-supplied value with %s" % (n, need))
 
 
+def r3b_merkle_depth(ctx, F):
+    """the depth operand of MPVERIFY / MRUPDATE is enforced by the VM itself: in each handler some branch condition depends
+    both on the length of the host-supplied Merkle path (a `len` call on a value flowing from the host call) and on the depth
+    operand (stack position 4), one side of that branch cannot complete (error return or panic) and performs no stack write,
+    and the branch dominates every stack write. Without it a dishonest host can answer a request for (depth d, index i) with
+    a node and path of another depth whose root still matches - mtree_get / mtree_verify / mtree_set would then return or
+    accept a node that is not the node at depth d."""
+    for fname in ("op_mpverify", "op_mrupdate"):
+        fn = F.fn(r"^miden_processor::operations::crypto_ops::Process::%s$" % fname)
+        ctx.inst(key="depth|" + fname, nontrivial=True)
+        errs = set(err_blocks(fn)) | set(panic_blocks(fn))
+        writes = fn.calls_to(r"Stack::(set|copy_state|shift_left|shift_right)$")
+        good_blocks = []
+        for bi, b in enumerate(fn.blocks):
+            t = b["t"]
+            if t["k"] != "switch" or "l" not in t["o"]:
+                continue
+            sl = fn.backward_slice(t["o"]["l"])
+            callees = [c for bb, c, tt in sl["calls"]]
+            has_len = any(re.search(r"::len$", c) for c in callees)
+            from_host = any(re.search(r"get_adv_merkle_path$|set_advice$|Host::get_advice$", c) for c in callees)
+            depth_get = False
+            for bb, c, tt in sl["calls"]:
+                if re.search(r"Stack::get$", c):
+                    a = tt["args"][1] if len(tt["args"]) > 1 else {}
+                    if a.get("c") == 4 or str(a.get("c")) == "4":
+                        depth_get = True
+            if not (has_len and from_host and depth_get):
+                continue
+            targets = [a[1] for a in t["arms"]] + [t["else"]]
+            fails = [tg for tg in targets if (fn.reachable_blocks(tg) & errs) and not any(w[0] in fn.reachable_blocks(tg) for w in writes)]
+            if fails and all(fn.dominates(bi, w[0]) for w in writes):
+                good_blocks.append(bi)
+        ok = bool(good_blocks) and bool(writes)
+        ctx.oblig(ok)
+        if not ok:
+            ctx.violation("merkle-depth-unchecked|%s" % fname, fn.loc(),
+                          "%s never compares the length of the host-supplied Merkle path with the depth operand (stack position 4) on a branch that fails before any stack write: "
+                          "a dishonest host can answer with a node and path of another depth whose root matches" % fname)
+
+
 def r4_pops(ctx, F):
     C = rules_c05.Composer(F)
     ctx.inst(key="AdvPush", nontrivial=True)
@@ -942,6 +983,7 @@ def run(ctx, F):
     ctx.run_rule("C09-R1", "every advice value of a hint-assisted instruction reaches a failing check that also depends on the operand; ext2inv/ext2div checks state hint * operand = target exactly", r1_lowered_hints, F)
     ctx.run_rule("C09-R2", "u64 div/mod/divmod: the assertions imply a = q*b + r and r < b, and all advice limbs are range-checked", r2_division, F)
     ctx.run_rule("C09-R3", "op_mpverify / op_mrupdate compare the computed root with the stack's root and fail before writing; mtree_* lowerings contain the verifying operation", r3_merkle, F)
+    ctx.run_rule("C09-R3b", "op_mpverify / op_mrupdate enforce the depth operand themselves: a branch depending on the length of the host-supplied path and on stack position 4 fails before any stack write", r3b_merkle_depth, F)
     ctx.run_rule("C09-R5", "u32clz/ctz/clo/cto and ilog2: for every hint value, the set of operands for which the lowered check sequence completes equals the set of operands whose count is that value (bit-cube comparison over all composed paths)", r5_exact, F)
     ctx.run_rule("C09-R4b", "advice provider: pop_stack_word = four pop_stack, pop_stack_dword = two pop_stack_word, push_stack(Word/Value) round-trips through pop (interpreted on symbolic stacks)", r4b_provider_order, F)
     ctx.run_rule("C09-R6", "honest injectors: U32Clz/Ctz/Clo/Cto, ILog2 and U64Div push the values (and in the order) the in-VM checks accept", r6_honest_injectors, F)
